@@ -48,7 +48,12 @@ pub fn gen(seed: u64, tier: Tier, k: u64) -> Value {
             3 => rng.range(10_000, 200_000) as usize,
             _ => rng.range(300, 9000) as usize,
         };
-        let mut it = Item { len, ent: *rng.pick(&Ent::ALL), hint: *rng.pick(&Hint::ALL), src: if rng.chance(1, 5) { Src::File } else { Src::Mem }, dup_of: None, cat_of: None };
+        let mut it = Item { len, ent: *rng.pick(&Ent::ALL), hint: *rng.pick(&Hint::ALL), src: match rng.below(6) {
+            0 => Src::File,
+            // a sub-range of a bigger file (what precedes and follows the range must not end up in the pack)
+            1 => Src::Range { before: *rng.pick(&[1usize, 512, 4096, 5000]), after: *rng.pick(&[0usize, 9, 4096]) },
+            _ => Src::Mem,
+        }, dup_of: None, cat_of: None };
         // duplicates at distance, possibly with another hint
         if i >= 2 && rng.chance(1, 4) {
             let j = rng.usize_below(i);
